@@ -207,6 +207,17 @@ Proof.
   split; vm_compute; reflexivity.
 Qed.
 
+(* the requests of write -> open_seekable+program -> delete -> open_seekable under prefix "wh/t1": one HEAD and one
+   ranged GET (bytes 1-2 of the 3-byte object) for the first open; for the open after the delete only get_size's
+   HEADs (the FileNotFoundError is retried max_retries times) and NO ranged GET *)
+Example C20_nonvacuous_open_requests :
+  run_trace 2 (gen_init_prefix (lit "wh/t1")) ex_F
+    (map (map_op join) [Write (k "data/x") (lit "abc"); Open (k "data/x") [Seek (-2) SeekEnd; ReadInto 5];
+                        Delete (k "data/x"); Open (k "data/x") [ReadAll]])
+  = [ [RPut (lit "wh/t1/data/x")]; [RHead (lit "wh/t1/data/x"); RGetR (lit "wh/t1/data/x") 1 2];
+      [RDelete (lit "wh/t1/data/x")]; repeat (RHead (lit "wh/t1/data/x")) (S gen_max_retries) ].
+Proof. vm_compute. reflexivity. Qed.
+
 (* a range program and a retry script inside the theorems' domains, with their concrete results *)
 Example C20_nonvacuous_range :
   Forall wf_rop [Seek (-2) SeekEnd; ReadInto 5; Seek (-9) SeekCur; ReadAll; Seek 1 SeekSet; ReadInto 2]
